@@ -155,6 +155,57 @@ def build_reference(root):
     return {'functions': entries}
 
 
+def _signatures(repo):
+    '''callable name -> parameter names, for names with one signature in the analysed tree'''
+    try:
+        return repo.signatures()
+    except Exception:
+        return {}
+
+
+def restyle_calls(fn, ref_fn, sigs):
+    '''calls in a changed function are spelled the way the reference function spells calls of the same callee: an argument the
+    reference passes by keyword is passed by keyword, one it passes by position by position (same arguments to the same
+    parameters either way).  Only callees whose name denotes one signature in the tree are touched.'''
+    def cname(c):
+        f = c.func
+        return f.id if isinstance(f, ast.Name) else (f.attr if isinstance(f, ast.Attribute) else None)
+    style = {}      # callee -> set of parameters the reference passes by keyword
+    seen = set()
+    for c in ast.walk(ref_fn):
+        if isinstance(c, ast.Call) and cname(c) in sigs and not any(isinstance(a, ast.Starred) for a in c.args) and all(k.arg for k in c.keywords):
+            seen.add(cname(c))
+            style.setdefault(cname(c), set()).update(k.arg for k in c.keywords)
+    for c in ast.walk(fn):
+        if not (isinstance(c, ast.Call) and cname(c) in seen):
+            continue
+        params = sigs[cname(c)]
+        if any(isinstance(a, ast.Starred) for a in c.args) or any(k.arg is None for k in c.keywords) or len(c.args) > len(params):
+            continue
+        given = dict(zip(params, c.args))
+        ok = True
+        for k in c.keywords:
+            if k.arg not in params or k.arg in given:
+                ok = False
+            given[k.arg] = k.value
+        if not ok:
+            continue
+        kw = style[cname(c)]
+        args, kws = [], []
+        positional_open = True
+        for p_ in params:
+            if p_ not in given:
+                positional_open = False
+                continue
+            if p_ in kw or not positional_open:
+                kws.append(ast.keyword(arg=p_, value=given[p_]))
+                positional_open = False
+            else:
+                args.append(given[p_])
+        c.args, c.keywords = args, kws
+    ast.fix_missing_locations(fn)
+
+
 _INV = None
 
 
@@ -219,9 +270,11 @@ def apply(repo):
             mods = {name: _Mod(ast.parse(m.source)) for name, m in repo.modules.items()}
             nz = normal.Normalizer(mods, inventory=inventory, only=set(summary['changed']), light=light)
             nz.run()
+            sigs = _signatures(repo)
             for name, m2 in mods.items():
                 for q, fn2, body2, cls2 in functions(m2.tree, name):
                     if q in light:
+                        restyle_calls(fn2, ast.parse(ref[q]['source']).body[0], sigs)
                         m, fn, body, seg = current[q]
                         for k, x in enumerate(body):
                             if x is fn:
